@@ -23,12 +23,12 @@ class Filter(ABC, Generic[T]):
         return self.intersection(other)
 
     def intersection(self, other: "Filter[T]") -> "IntersectionFilter[T]":
-        if isinstance(other, IntersectionFilter):
-            return other.intersection(self)
-        elif isinstance(self, IntersectionFilter):
+        if isinstance(self, IntersectionFilter):
             if isinstance(other, IntersectionFilter):
                 return IntersectionFilter(*self.filters, *other.filters)
             return IntersectionFilter(*self.filters, other)
+        elif isinstance(other, IntersectionFilter):
+            return other.intersection(self)
         else:
             return IntersectionFilter(self, other)
 
@@ -36,12 +36,12 @@ class Filter(ABC, Generic[T]):
         return self.union(other)
 
     def union(self, other: "Filter[T]") -> "UnionFilter[T]":
-        if isinstance(other, UnionFilter):
-            return other.union(self)
-        elif isinstance(self, UnionFilter):
+        if isinstance(self, UnionFilter):
             if isinstance(other, UnionFilter):
                 return UnionFilter(*self.filters, *other.filters)
             return UnionFilter(*self.filters, other)
+        elif isinstance(other, UnionFilter):
+            return other.union(self)
         else:
             return UnionFilter(self, other)
 
